@@ -95,7 +95,10 @@ static Case gen_c18(Chooser& ch) {
   int keep0 = -1, keepk = 0;
   if (w1) {   // whole pages inside a segment that stays in use
     size_t n = (size_t)ch.range(64*KiB + 1, 4*MiB); int k = (int)ch.range(2, 6); int s0 = allocs(k, n); keepk = (int)ch.range(2, 4); keep0 = allocs(keepk, n);
-    c.push_back(Op("watch").u("s", (uint64_t)s0).u("k", (uint64_t)k)); c.push_back(Op("rfree").u("s", (uint64_t)s0).u("k", (uint64_t)k).u("step", 1).u("ph", 0)); nfrees += (size_t)k;
+    // free adjacent pages (they coalesce into one span) or every 2nd/3rd page (separate spans, each scheduled on its own within one delay window)
+    int step = (int)ch.range(1, 3); if (step > 1) { k = k * 2; for (int i = 0; i < k / 2; i++) c.push_back(Op("alloc").u("s", (uint64_t)slot++).s("f", "malloc").u("n", n).u("nt", 1)); }
+    c.push_back(Op("watch").u("s", (uint64_t)s0).u("k", (uint64_t)k)); c.push_back(Op("rfree").u("s", (uint64_t)s0).u("k", (uint64_t)k).u("step", (uint64_t)step).u("ph", 0)); nfrees += (size_t)k;
+    keepk = slot - s0; keep0 = s0;   // the blocks left live in between serve as keepers too
     if (D == 0) c.push_back(Op("expect").s("what", "purged")); }
   if (w2) {   // whole segments
     int k = (int)ch.range(1, 3); int s0 = slot; for (int i = 0; i < k; i++) allocs(1, (size_t)ch.range(17*MiB, 60*MiB));
